@@ -46,7 +46,22 @@ type world struct {
 	overlay *overlaydb.OverlayDB
 	height  uint32
 	sh      *shadow
-	cur     *snapshot // canonical state after the last op (nil: not computed)
+	cur     *snapshot       // canonical state after the last op (nil: not computed)
+	keys    map[string]bool // declared public keys (hex of the canonical serialization)
+}
+
+// keyKnown: a string that denotes a public key may be used only after a `key` line declared that key (the model
+// knows public keys only through these lines; the rule keeps them in shrunk replays).
+func (w *world) keyKnown(pk string) bool {
+	b, err := hex.DecodeString(strTok(pk))
+	if err != nil {
+		return true
+	}
+	k, err := keypair.DeserializePublicKey(b)
+	if err != nil {
+		return true
+	}
+	return w.keys[hex.EncodeToString(keypair.SerializePublicKey(k))]
 }
 
 // now returns the current canonical state (cached between ops).
@@ -70,7 +85,7 @@ func newWorld() *world {
 		sharedOverlay = overlaydb.NewOverlayDB(store)
 	}
 	sharedOverlay.Reset()
-	return &world{overlay: sharedOverlay, height: 1, sh: newShadow()}
+	return &world{overlay: sharedOverlay, height: 1, sh: newShadow(), keys: map[string]bool{}}
 }
 
 // deterministic P-256 key from a 64-bit seed: (compressed public key bytes, address)
